@@ -151,6 +151,16 @@ def m_replay(prop, o):
                            capture_output=True, text=True, timeout=120)
         bad = "MISMATCH" in r.stdout or r.returncode < 0
         return dict(confirmed=bad, how=(r.stdout.strip()[-300:] or "signal %d" % -r.returncode))
+    if prop == "C12" and "model" in o and "relative_predicate" in o["id"]:
+        m = o["model"]
+        td = os.path.join(K.SCRATCH, "native")
+        b = subprocess.run(["cargo", "build", "--offline", "--release", "--example", "mrel", "--target-dir", td],
+                           cwd=K.KANI_CRATE, env=K.env_offline(), capture_output=True, text=True)
+        if b.returncode != 0:
+            return dict(confirmed=False, how="mrel build failed: " + b.stderr[-300:])
+        r = subprocess.run([os.path.join(td, "release", "examples", "mrel"), o["id"].split(".")[-1], m["orig_bits"], m["max_bits"], m["r_bits"]],
+                           capture_output=True, text=True, timeout=120)
+        return dict(confirmed="MISMATCH" in r.stdout, how=r.stdout.strip()[-300:])
     if prop == "C12" and "model" in o:
         m = o["model"]
         r = subprocess.run([exe, "--m-c12", o["id"].split(".")[-1], m["orig_bits"], m["max_bits"], m["r_bits"]],
